@@ -323,6 +323,8 @@ func runC04(c *an.Ctx) {
 		})
 	}
 	c.Min("C04.c", "writers of the head pointer", nW, 6)
+	checkHeightReinitialisedWithHead(c, "C04.c")
+	checkPendingDeleteRangeExact(c, "C04.a")
 	// advanceHead publishes the header it stores
 	{
 		t := c.T(advance)
